@@ -31,11 +31,6 @@ goalign stats char -i align.fasta
 		}
 
 		for al := range aligns.Achan {
-			if aligns.Err != nil {
-				err = aligns.Err
-				io.LogError(err)
-				return
-			}
 			if charstatpersites {
 				err = printSiteCharStats(al, charstatonly)
 			} else if charstatpersequences {
@@ -43,6 +38,14 @@ goalign stats char -i align.fasta
 			} else {
 				printCharStats(al, charstatonly)
 			}
+		}
+		// The error of the parser is set before the channel is closed:
+		// it is looked at once all the alignments it gave have been processed
+		// (looking at it in the loop stops at a place that depends on how far
+		// ahead the parser is)
+		if aligns.Err != nil {
+			err = aligns.Err
+			io.LogError(err)
 		}
 		return
 	},
